@@ -105,7 +105,7 @@ def run_case(case):
         names = set(deps)
         sim = SimCluster(proj.simdir, sched)
         env = cli.env_for(proj.simdir, (sched,))
-        pats = case["patterns"]
+        pats = list(case["patterns"])
         sel = scenario.select(names, pats)
         selected = model.endpoints(deps) if sel is None else sel
         c = model.cone(selected, deps)
@@ -221,6 +221,18 @@ def run_case(case):
                     raise Inconclusive("jobs did not all succeed after perturbation: failed %s left %s" % (bad, left))
                 if not check_converged("after %s #%d" % (p["kind"], pi)):
                     break
+        if ok and pats and not res.violations:
+            # the selection converged; now the whole workflow (new records must be stored next to the old ones)
+            pats[:] = []
+            c = set(names)
+            noout = {n for n in c if not by[n]["outs"]}
+            drain_ok.since = sim.seq()
+            sub = gwf_run()
+            if sub is not None:
+                bad, left = drain_ok(case["adv_seed"] + 1)
+                if bad or left:
+                    raise Inconclusive("jobs did not all succeed in the full drain: failed %s left %s" % (bad, left))
+                check_converged("full run after selection")
         res.count("distinct_orders_upper_bound", len(set(orders)))
         shared = any(len(v) >= 2 for v in inv.values()) or any(len(v) >= 2 for v in deps.values())
         res.sig = (gen.shape_class(deps), sched, kinds, sizes, case["hashing"], bool(pats))
